@@ -136,10 +136,12 @@ class ElabPass:
             for bundle in module.bundles.values():
                 self.elaborate_bundle_instance(bundle)
 
-            # Run the pass-specific `elaborate_module`
+            # Run the pass-specific `elaborate_module`.
+            # Whatever ends it part-way is recorded, a `KeyboardInterrupt` as much as a design error:
+            # what an interrupted pass leaves of `module` is not the design either.
             try:
                 result = self.elaborate_module(module)
-            except Exception as e:
+            except BaseException as e:
                 module._elab_failure = e
                 raise
         finally:
